@@ -348,6 +348,9 @@ def generate(target, registry):
         if cparams.get(n) != 'opaque':
             raise Unsupported('**kwargs')
         env[n] = ObjV('opaque')
+    for n_, v_ in env.items():
+        if isinstance(v_, (DictV, SetV)):
+            v_.origin = n_          # the caller's object (a later re-binding of the name is a different object)
     entry_mgrs = {k: s.copy() for k, s in mgrs.items()}
     entry_env = {k: (v.copy() if isinstance(v, (DictV, SetV)) else v) for k, v in env.items()}
     p0 = Path(mgrs, env, [])
@@ -407,6 +410,14 @@ def generate(target, registry):
                     assert fld in ('ext',), fld
                     setattr(S1, fld, val)
                 p.mgrs[mkey] = S1
+            # frame of container parameters: one that the contract does not list under `mutates` must come back unchanged
+            for nm_, ev_ in entry_env.items():
+                if isinstance(ev_, (DictV, SetV)) and nm_ in params and nm_ not in c.mutates:
+                    fin = p.env.get(nm_)
+                    if fin is not None and type(fin) is type(ev_) and nm_ in dict(c.params) and getattr(fin, 'origin', None) == nm_ \
+                            and fin.has.sort() == ev_.has.sort():
+                        same_ = z3.And(fin.has == ev_.has, *( [fin.val == ev_.val] if isinstance(ev_, DictV) else []))
+                        ex.oblige(p, f'frame:parameter-{nm_}-not-modified', same_)
             rz = ret_z(c, p.value, ex, p)
             pctx = Ctx(S=S1, S0=S0, S1=S1, a=ctx0.a, r=rz, mgrs0=entry_mgrs, mgrs=p.mgrs, uses=c.uses, muts=muts, ex=ex, path=p, own=True)
             for nm, g in c.post(pctx):
